@@ -81,11 +81,67 @@ def syslog_pairs(func, to_int):
             if k is None or val is None or val.k != 'StringLiteral':
                 continue
             pairs.append((val['s'], k['v'], k.get('macro') or k.get('inMacro')))
+    if not pairs:
+        pairs = syslog_table_pairs(func, to_int)
     return pairs
+
+
+def syslog_table_pairs(func, to_int):
+    """the same pairs when the converter scans a file-scope table of {name, value} rows instead of an if-chain:
+    the rows of the table's initialiser, provided this direction compares the one column and returns the other"""
+    prog = PROG[0]
+    if prog is None:
+        return []
+    tabs = {}
+    for n in func.body.walk():
+        if n.k == 'MemberExpr':
+            b = strip(n.ch[0])
+            if b is not None and b.k == 'ArraySubscriptExpr':
+                t = strip(b.ch[0])
+                if t is not None and t.k == 'DeclRefExpr' and (t['ref'].get('fileScope') or t['ref'].get('staticStorage')):
+                    tabs.setdefault(t['ref']['name'], []).append(n)
+    for tname, uses in tabs.items():
+        g = prog.global_var(tname)
+        if g is None or g.init is None or strip(g.init).k != 'InitListExpr':
+            continue
+        isstr = lambda m: '*' in (m.get('ct') or '')
+        # which column is compared, which is returned
+        compared = set()
+        for c in func.calls('strcmp') + func.calls('strcasecmp'):
+            for a in c.ch[1:]:
+                for m in (a.walk() if a is not None else ()):
+                    if any(m is u for u in uses):
+                        compared.add('str' if isstr(m) else 'int')
+        for b in func.blocks.values():
+            c = strip(b.cond) if b.cond is not None else None
+            if c is not None and c.k == 'BinaryOperator' and c['op'] == '==':
+                for m in c.walk():
+                    if any(m is u for u in uses) and not any(x.k == 'CallExpr' for x in c.walk()):
+                        compared.add('str' if isstr(m) else 'int')
+        returned = set()
+        for r in C.return_nodes(func):
+            for m in (r.ch[0].walk() if r.ch else ()):
+                if any(m is u for u in uses):
+                    returned.add('str' if isstr(m) else 'int')
+        want = ({'str'}, {'int'}) if to_int else ({'int'}, {'str'})
+        if (compared, returned) != want:
+            continue
+        rows = []
+        for row in strip(g.init).ch:
+            row = strip(row)
+            if row is None or row.k != 'InitListExpr':
+                continue
+            lits = [strip(x) for x in row.ch if x is not None and strip(x).k == 'StringLiteral']
+            nums = [strip(x) for x in row.ch if x is not None and 'v' in strip(x).d and strip(x).k != 'StringLiteral']
+            if len(lits) == 1 and len(nums) == 1:
+                rows.append((lits[0]['s'], nums[0]['v'], nums[0].get('macro') or nums[0].get('inMacro')))
+        return rows
+    return []
 
 
 def run(ctx):
     chk = ctx.chk
+    PROG[0] = None
     chk.rule('T1', 'option table: every row {"X", parseValue_X, getOptionValueAsString_X} is self-consistent, names are '
                    'unique, the terminator is last, the set of names equals the options documented in etc/snoopy.ini.in', floor=10)
     chk.rule('T2', 'field wiring: parseValue_X writes exactly the configuration fields getOptionValueAsString_X reads', floor=8)
@@ -113,6 +169,7 @@ def run(ctx):
                        'last occurrence wins beyond the no-leak rule of C16), the snoopyctl conf round trip as a string '
                        'identity']
     prog = ctx.program(facts.AS_CONFIGURED, 'lib')
+    PROG[0] = prog
     cg = ctx.callgraph(facts.AS_CONFIGURED, 'lib')
     # ---- T1 --------------------------------------------------------------------------------------
     g, rows = table_rows(prog)
@@ -403,6 +460,11 @@ def sentinel_rule(ctx, prog):
         for n in f.body.walk():
             if n.k == 'ReturnStmt' and n.ch and decl_of(n.ch[0]) is not None and decl_of(n.ch[0])['kind'] == 'var':
                 uses.append((n, decl_of(n.ch[0])['id']))
+            elif n.k == 'ReturnStmt' and n.ch and strip(n.ch[0]).k == 'BinaryOperator' and strip(n.ch[0]).get('op') == '-':
+                # a row cursor walked over the table: the index is `cursor - table`
+                l_, r_ = decl_of(strip(n.ch[0]).ch[0]), decl_of(strip(n.ch[0]).ch[1])
+                if l_ is not None and r_ is not None and l_['kind'] == 'var' and r_['kind'] == 'parm':
+                    uses.append((n, l_['id']))
             if n.k == 'CallExpr' and n.get('callee') is None:
                 sub = [x for x in n.ch[0].walk() if x.k == 'ArraySubscriptExpr']
                 if sub and decl_of(sub[0].ch[1]) is not None:
